@@ -98,10 +98,15 @@ def branch_src(P, b):
         s = f"{f}({iid}, {b})"
     pre = {"none": "", "let": f"let {name_of(b)} = ", "letmut": f"let mut {name_of(b)} = "}[B["name"]]
     parts = [pre + s]
+    # sync try macros with transpose_results(false) hand UNWRAPPED values to the next step: and_then there is `-> f`
+    unwrapped = P["kind"]["try"] and not a and P["opts"].get("transpose") == "false"
     for k, items in enumerate(B["steps"]):
         for j, it in enumerate(items):
             tilde = "~" if (k > 0 and j == 0) else ""
-            parts.append(f"{tilde}{SYM[it['op']]} {operand(P, it, b)}")
+            sym = SYM[it["op"]]
+            if unwrapped and k > 0 and j == 0 and it["op"] == "and_then":
+                sym = "->"
+            parts.append(f"{tilde}{sym} {operand(P, it, b)}")
     return " ".join(parts)
 
 
